@@ -18,6 +18,7 @@ import (
 	"os/exec"
 	"runtime"
 	"strings"
+	"sync/atomic"
 	"time"
 
 	"github.com/drand/drand/v2/common"
@@ -40,6 +41,7 @@ const (
 	childUnanswered = 41
 	childProbe      = 42
 	childSetup      = 43
+	childWedged     = 44
 )
 
 // runPendingParent re-executes this binary for the scenario and turns its fate into monitor results.
@@ -64,6 +66,13 @@ func runPendingParent(rep *emit.Report, seed int64, tier string) {
 	err = cmd.Run()
 	rep.Evaluations += pendingIterations(tier)
 	rep.DistinctNontrivial += pendingIterations(tier)
+	for _, l := range strings.Split(out.String(), "\n") {
+		var n int
+		if _, e := fmt.Sscanf(l, "CONCURRENT completed=%d", &n); e == nil {
+			rep.Evaluations++ // one scenario; the number of requests it completed goes to the distribution
+			rep.Distribution["concurrent/requests-completed"] += n
+		}
+	}
 	scenario := "PublicRand(round last+1) pending, then Store().Put(last+1); Store().Put(last+2) back to back (one scheduler thread), on a real DrandDaemon with the memdb back-end"
 	code := 0
 	var ee *exec.ExitError
@@ -90,6 +99,14 @@ func runPendingParent(rep *emit.Report, seed int64, tier string) {
 		rep.Fail("C14-pending-round-unanswered", "the pending request for the next round was not answered with that round", map[string]string{"scenario": scenario, "output": tail})
 	case code == childProbe:
 		rep.Fail("C14-probe-unanswered", "after serving the pending request the node no longer answers", map[string]string{"scenario": scenario, "output": tail})
+	case code == childWedged || ctx.Err() != nil:
+		rep.Count("concurrent/wedged")
+		what := "requests carrying an unknown chain hash, issued concurrently with updates of the daemon's process table, stopped completing: " + wedgeLine(out.String())
+		if ctx.Err() != nil {
+			what = "the child process did not finish and was killed by the watchdog (no request completing)"
+		}
+		rep.Fail("C14-daemon-wedged-by-concurrent-requests", what, map[string]string{
+			"scenario": "8 goroutines calling GetIdentity / ChainInfo / Status / PublicRand with {id: fresh chain, hash: unknown 32 bytes} on a real DrandDaemon while another goroutine runs RemoveBeaconProcess / InstantiateBeaconProcess", "output": tail})
 	case code == childSetup:
 		rep.Fail("C14-engine", "child set-up failed", map[string]string{"output": tail})
 	default:
@@ -98,6 +115,15 @@ func runPendingParent(rep *emit.Report, seed int64, tier string) {
 			"the node process died while a request for the next round was pending and two beacons were stored back to back: "+line,
 			map[string]string{"scenario": scenario, "exit": fmt.Sprint(code), "output": tail})
 	}
+}
+
+func wedgeLine(out string) string {
+	for _, l := range strings.Split(out, "\n") {
+		if strings.HasPrefix(l, "WEDGED") {
+			return l
+		}
+	}
+	return ""
 }
 
 func pendingIterations(tier string) int {
@@ -156,6 +182,8 @@ func runPendingChild(tier string) {
 	}
 	store := bp.VerifBeaconHandler().Store()
 
+	runConcurrent(ctx, dd, cfg, sch, tier)
+
 	// one scheduler thread from here on: both beacons are dispatched before the waiter's worker runs
 	defer runtime.GOMAXPROCS(runtime.GOMAXPROCS(1))
 	md := func() *drand.Metadata { return &drand.Metadata{BeaconID: "default"} }
@@ -203,4 +231,118 @@ func runPendingChild(tier string) {
 		}
 	}
 	os.Exit(childOK)
+}
+
+// runConcurrent: requests that take the "unknown chain hash, process still without group" branch
+// of readBeaconID, issued from several goroutines through the real endpoints, while another
+// goroutine updates the daemon's process table the way InstantiateBeaconProcess /
+// RemoveBeaconProcess do. Requests must keep completing; if none completes for a while the daemon
+// is wedged (a lock is held for ever) and the child exits at once, after trying one plain request.
+func runConcurrent(ctx context.Context, dd *core.DrandDaemon, cfg *core.Config, sch *crypto.Scheme, tier string) {
+	// a fresh chain (key pair only, no group): "alpha"; and key stores for the writer's own ids
+	mkStore := func(id string) key.Store {
+		pair, err := key.NewKeyPair("127.0.0.1:1", sch)
+		if err != nil {
+			childFail(childSetup, "%v", err)
+		}
+		st := key.NewFileStore(cfg.ConfigFolderMB(), id)
+		if err := st.SaveKeyPair(pair); err != nil {
+			childFail(childSetup, "%v", err)
+		}
+		return st
+	}
+	mkStore("alpha")
+	if _, err := dd.LoadBeacon(ctx, &drand.LoadBeaconRequest{Metadata: &drand.Metadata{BeaconID: "alpha"}}); err != nil {
+		childFail(childSetup, "load alpha: %v", err)
+	}
+	alpha, err := dd.VerifRoutingProcessByID("alpha")
+	if err != nil {
+		childFail(childSetup, "%v", err)
+	}
+	wstore := mkStore("writer")
+	unknown := bytes.Repeat([]byte{0xab}, 32)
+	var completed, writes atomic.Int64
+	var stop atomic.Bool
+	md := func() *drand.Metadata { return &drand.Metadata{BeaconID: "alpha", ChainHash: unknown} }
+	const nReaders = 8
+	for g := 0; g < nReaders; g++ {
+		g := g
+		go func() {
+			for i := 0; !stop.Load(); i++ {
+				switch (i + g) % 4 {
+				case 0:
+					_, _ = dd.GetIdentity(ctx, &drand.IdentityRequest{Metadata: md()})
+				case 1:
+					_, _ = dd.ChainInfo(ctx, &drand.ChainInfoRequest{Metadata: md()})
+				case 2:
+					_, _ = dd.Status(ctx, &drand.StatusRequest{Metadata: md()})
+				default:
+					_, _ = dd.PublicRand(ctx, &drand.PublicRandRequest{Metadata: md()})
+				}
+				completed.Add(1)
+			}
+		}()
+	}
+	go func() {
+		for i := 0; !stop.Load(); i++ {
+			// the table update of a beacon that is being removed (an id that is not loaded: nothing changes)
+			dd.RemoveBeaconProcess(ctx, "nobody", alpha)
+			if i%64 == 0 {
+				// and of a beacon that is being loaded, then removed again
+				if wp, err := dd.InstantiateBeaconProcess(ctx, "writer", wstore); err == nil {
+					dd.RemoveBeaconProcess(ctx, "writer", wp)
+				}
+			}
+			writes.Add(1)
+			time.Sleep(50 * time.Microsecond)
+		}
+	}()
+	dur := 2 * time.Second
+	if tier == "thorough" {
+		dur = 15 * time.Second
+	}
+	const stall = 5 * time.Second
+	wedged := func(lastN int64) {
+		// is a plain valid request still served?
+		served := make(chan error, 1)
+		go func() {
+			_, err := dd.ChainInfo(ctx, &drand.ChainInfoRequest{Metadata: &drand.Metadata{BeaconID: "default"}})
+			served <- err
+		}()
+		plain := "a plain ChainInfo request for the default chain is not served either"
+		select {
+		case err := <-served:
+			plain = fmt.Sprintf("a plain ChainInfo request for the default chain still returns (err=%v)", err)
+		case <-time.After(3 * time.Second):
+		}
+		fmt.Fprintf(os.Stderr, "WEDGED no request completed for %s after %d requests and %d table updates; %s\n", stall, lastN, writes.Load(), plain)
+		os.Exit(childWedged)
+	}
+	start, lastProgress, lastN := time.Now(), time.Now(), int64(0)
+	// run for dur, and never stop while the requests are stalled: a stall either ends or is a wedge
+	for time.Since(start) < dur || time.Since(lastProgress) > 200*time.Millisecond {
+		time.Sleep(50 * time.Millisecond)
+		if n := completed.Load(); n != lastN {
+			lastN, lastProgress = n, time.Now()
+		} else if time.Since(lastProgress) > stall {
+			wedged(lastN)
+		}
+	}
+	stop.Store(true)
+	time.Sleep(20 * time.Millisecond)
+	fmt.Fprintf(os.Stderr, "CONCURRENT completed=%d writes=%d\n", completed.Load(), writes.Load())
+	// afterwards the plain request is served
+	after := make(chan error, 1)
+	go func() {
+		_, err := dd.ChainInfo(ctx, &drand.ChainInfoRequest{Metadata: &drand.Metadata{BeaconID: "default"}})
+		after <- err
+	}()
+	select {
+	case err := <-after:
+		if err != nil {
+			childFail(childProbe, "after the concurrent phase: ChainInfo: %v", err)
+		}
+	case <-time.After(stall):
+		wedged(completed.Load())
+	}
 }
